@@ -1,5 +1,6 @@
 SPECIFICATION TSpec
 CONSTANTS
+  WithDerive = FALSE
   Contents <- AllContents
   EntryPoints <- TraceEPs
   Extra <- TraceExtra
